@@ -214,6 +214,25 @@ Theorem C04_rejected_no_change : forall fuel d st o,
 Proof. exact rejected_no_change. Qed.
 Print Assumptions C04_rejected_no_change.
 
+(* Kept <M>Calls() results are values: whatever history follows - calls, nested calls, resets, function
+   changes, other kept results - looking again at a result kept under [id] gives exactly the records
+   <M>Calls() returned when it was kept (which were the log of that moment).  The real mock hands out its
+   internal slice; a reset that keeps the backing array (calls = calls[:0]) breaks this. *)
+Theorem C04_snapshots_are_values : forall fuel d ts id m l rest,
+  snd (fst (tstep fuel d ts (TKeep id m))) = ORecords l ->
+  forallb (fun t => negb (keeps_id id t)) rest = true ->
+  let ts1 := fst (fst (tstep fuel d ts (TKeep id m))) in
+  tstep fuel d (tfinal fuel d ts1 rest) (TRecheck id) = (tfinal fuel d ts1 rest, ORecords l, []).
+Proof. exact snapshots_are_values. Qed.
+Print Assumptions C04_snapshots_are_values.
+
+Theorem C04_keep_returns_log : forall fuel d ts id m s,
+  find_method (methods d) m = Some s ->
+  tstep fuel d ts (TKeep id m) =
+  ((fst ts, fun i => if Nat.eqb i id then Some (log_of (fst ts) m) else snd ts i), ORecords (log_of (fst ts) m), []).
+Proof. exact keep_returns_log. Qed.
+Print Assumptions C04_keep_returns_log.
+
 (* Non-vacuity: Do(id, s, xs...) served by a function that reads DoCalls() while running (sees its
    own record), calls A (nil function: panic, recovered by the function) and resets A. *)
 Example C04_example :
